@@ -36,4 +36,6 @@ def run(rep, tier):
         rep.call(simd_rules.conv_saturate, rep, prog, "C18.saturate")
         from ..engines import type_tables
         rep.call(type_tables.clip_table, rep, prog, "C18.clip-table")
+        from ..engines import dispatch_rules
+        rep.call(dispatch_rules.headroom, rep, prog, "C18.headroom")
         rep.call(roundbudget.budget, rep, prog, "C18.round-budget", {"x86": 110, "arm": 60, "wasm": 55}.get(cfg, 40))
